@@ -278,6 +278,10 @@ func newOracle(r *ev.Run, w *world, h history, info caseInfo) *oracle {
 		attempted: map[blob.Ref]bool{}, rmInflight: map[blob.Ref]bool{}, touched: map[blob.Ref]bool{},
 		inflightB: h.Ops[len(h.Ops)-1].B, crashOff: -1}
 	n := len(h.Ops)
+	for _, op := range h.Ops {
+		r.Note("ref_hashes", w.Uni[op.B].Ref.HashName())
+	}
+	r.Note("inflight_ref_hashes", w.Uni[h.Ops[n-1].B].Ref.HashName())
 	for _, op := range h.Ops[:n-1] {
 		b := w.Uni[op.B]
 		if op.Recv {
@@ -614,7 +618,21 @@ func (o *oracle) remove(ck *sto.Checker, i int) {
 // removes an old and a new blob, receives duplicates and re-receives.
 func (o *oracle) continueHistory(ck *sto.Checker, variant int) {
 	last := o.hist.Ops[len(o.hist.Ops)-1]
-	if last.Recv {
+	if last.Recv && variant == 2 {
+		// the interrupted upload is retried and, once acknowledged, the blob is removed again: from the
+		// acknowledged remove on (it ran on a store that had the blob) the blob is certainly absent,
+		// also from an index rebuilt from the packs - whatever record the crashed attempt left
+		o.phase = "-then-append"
+		o.receive(ck, last.B)
+		retried := ck.LastErr() == nil
+		ck.Fetch(o.w.Uni[last.B])
+		o.remove(ck, last.B)
+		if retried && ck.LastErr() == nil {
+			delete(o.attempted, o.w.Uni[last.B].Ref)
+			o.r.Count("inflight_receive_retried_then_removed", 1)
+			o.r.Note("events", "retry-then-remove")
+		}
+	} else if last.Recv {
 		o.phase = "-then-append"
 		o.receive(ck, last.B)
 	} else if variant%2 == 0 {
@@ -638,10 +656,26 @@ func (o *oracle) continueHistory(ck *sto.Checker, variant int) {
 			olds = append(olds, i)
 		}
 	}
-	if len(olds) > 0 {
-		o.remove(ck, olds[o.rng.Intn(len(olds))])
+	if len(olds) > 0 && o.rng.Intn(2) == 0 {
+		// one RemoveBlobs call for an old and a new blob (records in different packs, one index batch)
+		old := olds[o.rng.Intn(len(olds))]
+		bs := []sto.Blob{o.w.Uni[old], o.w.Uni[nh+1]}
+		o.logf("remove #%d(%dB) and #%d(%dB) in one call", old, len(bs[0].Data), nh+1, len(bs[1].Data))
+		o.touched[bs[0].Ref], o.touched[bs[1].Ref] = true, true
+		ck.Remove(bs)
+		if ck.LastErr() == nil {
+			for _, b := range bs {
+				delete(o.rmInflight, b.Ref)
+				o.ackedSince(b.Ref)
+			}
+		}
+		o.r.Count("multi_ref_removes_while_continuing", 1)
+	} else {
+		if len(olds) > 0 {
+			o.remove(ck, olds[o.rng.Intn(len(olds))])
+		}
+		o.remove(ck, nh+1)
 	}
-	o.remove(ck, nh+1)
 	o.receive(ck, nh)   // duplicate
 	o.receive(ck, nh+1) // re-receive after remove
 }
